@@ -10,15 +10,16 @@ open Cvise Cvise.W
 /-- a well-shaped `run_pass`: the root is created only after the zero-size test and every way out removes it -/
 def GoodShape (sh : Shape) : Prop :=
   sh.rootAfterZeroCheck = true ∧ sh.removeRootOnError = true ∧ sh.removeRootOnInterrupt = true ∧
-  sh.removeRootOnReturn = true ∧ sh.candidateDirsInsideRoot = true
+  sh.removeRootOnReturn = true ∧ sh.candidateDirsInsideRoot = true ∧ sh.setupBeforeRoot = true
 
 /-- for every exit of a pass run — skipped by --start-with-pass, zero size, normal, C-Vise error (die-on-pass-bug,
-    missing file), foreign exception from a worker, keyboard interrupt — nothing of the pass stays under TMPDIR
+    missing file), foreign exception from a worker, keyboard interrupt, a failure while the pass is being set up (the key
+    reader without a standard input) — nothing of the pass stays under TMPDIR
     unless --save-temps -/
 theorem tmp_clean (sh : Shape) (h : GoodShape sh) (e : PassExit) :
     rootLeft sh false e = false ∧ candidateDirsLeft sh false e = false := by
-  obtain ⟨h1, h2, h3, h4, h5⟩ := h
-  cases e <;> simp [rootLeft, candidateDirsLeft, h1, h2, h3, h4, h5]
+  obtain ⟨h1, h2, h3, h4, h5, h6⟩ := h
+  cases e <;> simp [rootLeft, candidateDirsLeft, h1, h2, h3, h4, h5, h6]
 
 /-- … and no test script started for a candidate survives the pass run: every way out goes through `kill_pid_queue()`
     (after every round on the normal path, in both exception handlers otherwise) -/
@@ -51,6 +52,12 @@ theorem old_shape_leaks :
                          removeRootOnReturn := true, sanityDirRemoved := true, candidateDirsInsideRoot := true }
     rootLeft old false .zeroSize = true ∧ rootLeft old false .cviseError = true ∧ rootLeft old false .foreign = true := by
   decide
+
+/-- before fix F16 the key reader was constructed after `create_root()` and outside the `try`: without a standard input the
+    pass root stayed behind -/
+theorem old_setup_order_leaks :
+    rootLeft { rootAfterZeroCheck := true, removeRootOnError := true, removeRootOnInterrupt := true, removeRootOnReturn := true,
+               sanityDirRemoved := true, candidateDirsInsideRoot := true, setupBeforeRoot := false } false .setupFails = true := by decide
 
 /-- with --save-temps the root is kept on purpose (non-vacuity of the flag) -/
 example : rootLeft Gen.shape true .normal = true := by decide
